@@ -226,7 +226,11 @@ def make_program(mode, shared):
                 run.oblige(tg + "::first_step_rule",
                            z3.And(z3.Implies(first, z3.And(zreal(st0) <= c["stpmax"],
                                                            z3.Or(zreal(st0) == inv_norm, zreal(st0) == c["stpmax"]))),
-                                  z3.Implies(z3.Not(first), zreal(st0) == 1)), PP + ("C11",))
+                                  # later iterations / boxed problems: the unit step of Algorithm 778, except that a
+                                  # bound of the step marginally below 1 (rounding) caps it
+                                  z3.Implies(z3.Not(first), z3.Or(zreal(st0) == 1,
+                                                                  z3.And(zreal(st0) == c["stpmax"], c["stpmax"] < 1)))),
+                           PP + ("C11",))
         it.loops[("linesearch.line_search", 1)] = LsCut(ls_inv, ls_havoc, shared)
         fn = it.lookup("linesearch.line_search")
         cover(run, f"LS[{mode}]::requires_satisfiable")
